@@ -128,6 +128,41 @@ func (o objM) MarshalZerologObject(e *zerolog.Event) {
 	e.Int("ok", o.k)
 }
 
+// pool operations with the object's identity (ids in order of creation, as EventLife numbers them)
+var (
+	poolsSeen  = map[*vsync.Pool]bool{}
+	objID      = map[interface{}]int{}
+	nextObj    int
+	tracePools bool
+)
+
+func gnum(name string) int {
+	n := 0
+	fmt.Sscanf(name, "G%d", &n)
+	return n
+}
+
+func poolTrace(op string, p *vsync.Pool, obj interface{}, fresh bool) {
+	poolsSeen[p] = true
+	if !tracePools {
+		return
+	}
+	kind := "?"
+	switch obj.(type) {
+	case *zerolog.Event:
+		kind = "e"
+	case *zerolog.Array:
+		kind = "a"
+	}
+	id, ok := objID[obj]
+	if !ok {
+		nextObj++
+		id = nextObj
+		objID[obj] = id
+	}
+	emit(ev{"a": "Pool", "g": gnum(vsched.Current()), "op": op, "kind": kind, "obj": id, "fresh": fresh})
+}
+
 type recW struct {
 	expect map[string][]byte
 	nw     map[string]int // writes the same call chain makes when run alone (0: the event is discarded by a hook)
@@ -181,6 +216,13 @@ func play(sc Script) bool {
 			w.nw[fmt.Sprintf("%d/%d", g+1, k+1)] = bytes.Count(b.Bytes(), []byte("\n"))
 		}
 	}
+	// the run-alone renderings above used the pools: empty them, so that the pools start as EventLife's do
+	for p := range poolsSeen {
+		p.Drain()
+	}
+	objID, nextObj = map[interface{}]int{}, 0
+	tracePools = true
+	defer func() { tracePools = false }()
 	var dst io.Writer = w
 	if sc.Sync {
 		dst = zerolog.SyncWriter(w)
@@ -218,6 +260,12 @@ func play(sc Script) bool {
 				skipped++
 			}
 			return true
+		}
+		// implementation-level record of the gate that is passed now (pool gates are recorded with the object's identity by
+		// the pool shim itself, l.event by EvStart): conformance of the real gate sequence to EventLife.tla
+		switch t.Label {
+		case "user.marshal", "user.hook", "mu.lock", "mu.unlock", "w.write":
+			emit(ev{"a": "Gate", "g": gnum(n), "label": t.Label})
 		}
 		return vsched.Step(t) != "HUNG"
 	}
@@ -270,6 +318,7 @@ func play(sc Script) bool {
 
 func main() {
 	zerolog.ErrorStackMarshaler = func(err error) interface{} { return "stk" }
+	vsync.PoolTrace = poolTrace
 	in := flag.String("scripts", "", "")
 	outp := flag.String("out", "conc.ndjson", "")
 	flag.Parse()
